@@ -195,6 +195,29 @@ def run_case(case):
     return outs, t, backing
 
 
+class SubBytes(bytes):
+    """a proper subclass of bytes (like hexbytes.HexBytes): a legal key / value wherever bytes are"""
+
+
+def subify(o):
+    if type(o) is bytes:
+        return SubBytes(o)
+    if isinstance(o, tuple):
+        return tuple(subify(x) for x in o)
+    if isinstance(o, list):
+        return [subify(x) for x in o]
+    return o
+
+
+def subclass_check(prune, ops, outs):
+    """the same history with every key and value an instance of a bytes subclass gives the same results, roots and stores"""
+    alt = HX.run_history(prune, subify(ops))[0]
+    if alt != outs:
+        i = next((j for j, (a, b) in enumerate(zip(alt, outs)) if a != b), None)
+        return f"history behaves differently when keys / values are instances of a bytes subclass (first difference at step {i}: {alt[i]!r} vs {outs[i]!r})"
+    return None
+
+
 def check(tier, seed):
     R = C.Reporter("C01", tier, seed)
     R.gate = C.proof_gate("C01")
@@ -211,6 +234,10 @@ def check(tier, seed):
             small = C.shrink_list(case["ops"], lambda ops: oracle(ops, HX.run_history(case["prune"], ops)[0]) is not None)
             R.spec_violations.append((oracle(small, HX.run_history(case["prune"], small)[0]) or bad,
                                       {"prune": case["prune"], "ops": small}))
+        if not bad:
+            bad = subclass_check(case["prune"], case["ops"], outs)
+            if bad:
+                R.spec_violations.append((bad, {"prune": case["prune"], "ops": case["ops"], "subclass": True}))
         if nontrivial(case, backing, t.root_hash, outs):
             R.nontrivial.add(C.case_key(case["ops"]))
             if len(R.samples) < 2:
@@ -248,6 +275,8 @@ def replay(payload):
     ops = [tuplify(o) for o in case["ops"]]
     outs, _, _ = HX.run_history(case["prune"], ops)
     bad = oracle(ops, outs)
+    if not bad and case.get("subclass"):
+        bad = subclass_check(case["prune"], ops, outs)
     print("replay:", "VIOLATES: " + bad if bad else "holds")
     return 1 if bad else 0
 
